@@ -190,6 +190,11 @@ func (ex *Exec) appendOp(fr *Frame, st *State, ci *ssa.Call, args []*Val, rt typ
 	ex.fact(SLe(ncap, BVConst(1<<40, 64)))
 	ex.assume(st.pc, Implies(Not(fits), SLe(newLen, ncap)))
 	grown := &Val{K: KSlice, Typ: rt, IsNil: False, Tg: []Target{{G: True, Loc: Loc{Obj: o}}}, Off: BVConst(0, 64), Len: newLen, Cap: ncap}
+	// the grown backing array starts as a copy of the old elements
+	if !fits.IsTrue() && len(s.Tg) == 1 {
+		oldView := &Val{K: KSlice, Typ: rt, IsNil: False, Tg: grown.Tg, Off: BVConst(0, 64), Len: s.Len, Cap: s.Len}
+		ex.copyElems(fr, st, oldView, s, s.Len)
+	}
 	// element write(s)
 	if fits.IsTrue() || true {
 		// write into the in-place candidate under guard fits (single element fast path)
